@@ -13,7 +13,8 @@ WEIGHTS = {'create': 16, 'iter': 8, 'intoThin': 12, 'conv': 18, 'cb': 20, 'clone
 
 
 def run(ctx):
-    histcheck.run(ctx, MODULE, WEIGHTS, TAGS, lean_extra=EXTRA)
+    histcheck.run(ctx, MODULE, WEIGHTS, TAGS, lean_extra=EXTRA,
+                  release_quick_filter=lambda h: any(op.split()[0] in ('iter', 'intoThin', 'cb') for op in h))
 
 
 def replay(ctx, path):
